@@ -403,7 +403,7 @@ def build(tier):
     from pyvc import front as _front
     _io, _im, _if = _front.find_function("agilerl.algorithms.ippo.IPPO.get_action")
     P.contract("agilerl.algorithms.ippo.IPPO.get_action", variant="eval-box",
-               region=region("agent_id = self.homogeneous_agents[shared_id][0]", "action_dict[shared_id] = action"),
+               region=region("agent_id = ", "action_dict[shared_id] = "),
                params={**{a_.arg: "opaque" for a_ in _if.args.args + _if.args.kwonlyargs if a_.arg != "self"},
                        "self": ippo_self, "shared_id": (lambda ex, st, l: "agent"), "actor": ippo_actor, "critic": "opaque", "action_mask": "opaque",
                        "log_prob": "opaque", "entropy": "opaque", "state_values": "opaque", "action_dict": (lambda ex, st, l: {}),
